@@ -18,7 +18,7 @@ RULE = ("A program P and a history Q1..Qk (k = 0..6), all drawn from the C13 gen
         "of the history, and twice in a row; in half of the cases the history is assembled first and P only afterwards, "
         "judged against a fresh interpreter process (a cache in which the first binding wins shows only this way); in 1 case of 12 also in fresh interpreter processes with PYTHONHASHSEED 0, "
         "1 and 12345 (ten hash seeds for the enumerated programs whose EQU definitions depend on each other). Oracle: the canonical result (outcome class, image, every listing line, every symbol line in "
-        "order, origin, name, diagnostic text) is identical in all runs; the list of lines passed in equals its copy "
+        "order, origin, name, diagnostic text) is identical in all runs; the list of lines passed in equals its copy (also for enumerated programs whose first line begins with a byte order mark, a DOS end-of-file mark or a tab, ends in blanks, or whose last line has no line end) "
         "afterwards; the module tables (INSTRUCTIONS, REGISTERS, the regular expressions) hash the same before and "
         "after. Whenever a fresh process is consulted, the lines are also written to a file and given to a real assembler.py "
         "process (--to_bin): it must accept exactly when the warm run accepts and write the same image (enumerated with "
